@@ -395,7 +395,27 @@ func (t *Tables) DrawAllowed(rt *rapid.T, pool []Term, excPool []string, maxLen 
 // sort key or cache key would confuse with the original.
 func (t *Tables) sibling(rt *rapid.T, e Term, excPool []string, label string) Term {
 	if e.Kind == "ref" {
-		switch rapid.IntRange(0, 2).Draw(rt, label+"SibRef") {
+		switch rapid.IntRange(0, 3).Draw(rt, label+"SibRef") {
+		case 3:
+			// the boundary between document name and reference name moved: the two terms have the same
+			// concatenation (with or without a '-' between the parts) but are different references - what a
+			// de-duplication / cache key built by joining the two names confuses
+			if e.Doc == "" {
+				if i := strings.Index(e.Ref, "-"); i > 0 && i < len(e.Ref)-1 {
+					return MakeRefTerm(e.Ref[:i], e.Ref[i+1:])
+				}
+				return MakeRefTerm(e.Ref, e.Ref)
+			}
+			if i := strings.Index(e.Ref, "-"); i > 0 && i < len(e.Ref)-1 && rapid.Bool().Draw(rt, label+"SibShiftRight") {
+				return MakeRefTerm(e.Doc+"-"+e.Ref[:i], e.Ref[i+1:])
+			}
+			if i := strings.LastIndex(e.Doc, "-"); i > 0 && i < len(e.Doc)-1 {
+				return MakeRefTerm(e.Doc[:i], e.Doc[i+1:]+"-"+e.Ref)
+			}
+			if len(e.Ref) > 1 {
+				return MakeRefTerm(e.Doc+e.Ref[:1], e.Ref[1:])
+			}
+			return MakeRefTerm(e.Doc+"-"+e.Ref, e.Ref)
 		case 0:
 			if e.Doc == "" || rapid.Bool().Draw(rt, label+"SibOtherDoc") {
 				d := rapid.SampledFrom(docNames).Draw(rt, label+"SibDoc")
